@@ -153,6 +153,14 @@ pub fn notify(app: tauri::AppHandle, %s) {
 pub fn tick(window: tauri::Window) {
     window.emit("tick", 1).ok();
 }
+
+// the same variable names as in `notify`, but nothing here says what their types are
+pub fn report(app: tauri::AppHandle, id: u32) {
+    let user = lookup(id);
+    let address = user.home();
+    app.emit("user-looked-up", user).ok();
+    app.emit("address-looked-up", &address).ok();
+}
 """ % (payload, ev_name, pvar, extra_ev)
     else:
         ev_rs = "pub fn notify() {}\n"
@@ -335,6 +343,17 @@ def foreign_files(out_rel, rich=False):
             out_rel + "/commands.ts.orig": "orig\n",
             out_rel + "/README": "readme\n",
             out_rel + "/sub/index.ts": "// nested\n",
+            out_rel + "/types.test.ts": "// a test next to the bindings\n",
+            out_rel + "/index.spec.ts": "// spec\n",
+            out_rel + "/commands.mock.ts": "// mock\n",
+            out_rel + "/models.local.ts": "// local\n",
+            out_rel + "/types.tsx": "export {};\n",
+            out_rel + "/generated.ts": "// no underscore: not reserved\n",
+            out_rel + "/typesafe.ts": "export {};\n",
+            out_rel + "/bindings.js": "// js\n",
+            out_rel + "/schemas.json": "{}\n",
+            out_rel + "/.typecache.lock": "\n",
+            out_rel + "/dependency-graph.png": "png\n",
         })
     return f
 
